@@ -139,6 +139,9 @@ class Gen:
         return text
 
     def any_kind(self):
+        if getattr(self, "no_addr", 0):
+            # inside text that is measured or compared later: no value whose text contains an address
+            return self.r.weighted([("num", 10), ("str", 6), ("bool", 4), ("nil", 2), ("vec", 3), ("tuple", 2), ("range", 1)])
         return self.r.weighted([("num", 10), ("str", 6), ("bool", 4), ("nil", 2), ("vec", 3), ("tuple", 2), ("map", 1),
                                 ("fn:0", 1), ("range", 1)])
 
@@ -211,6 +214,7 @@ class Gen:
             return "%s + %s" % (self.paren(self.expr("str", depth - 1)), self.paren(self.expr("str", depth - 1)))
         if c < 60:
             parts = []
+            self.no_addr = getattr(self, "no_addr", 0) + 1
             for _ in range(r.range(1, 3)):
                 parts.append(r.choice(["", "a", " ", "x=", "é"]))
                 inner = self.expr(r.choice(["num", "str", "bool", "nil", "vec", "tuple"]), depth - 1)
@@ -219,10 +223,15 @@ class Gen:
                     if '"' in inner:
                         inner = "1"
                 parts.append("${" + inner + "}")
+            self.no_addr -= 1
             parts.append(r.choice(["", "!", " end"]))
             return '"' + "".join(parts) + '"'
         if c < 70:
-            return "String.from(%s)" % self.expr(r.choice(["num", "bool", "nil", "str", "vec"]), depth - 1)
+            self.no_addr = getattr(self, "no_addr", 0) + 1
+            try:
+                return "String.from(%s)" % self.expr(r.choice(["num", "bool", "nil", "str", "vec"]), depth - 1)
+            finally:
+                self.no_addr -= 1
         if c < 80:
             return r.choice(['"abcdef"[%s]' % r.choice(["0", "1", "-1", "0..2", "0..0", "1..3", "-2..-1", "2..6"]),
                              '"héllo"[%s]' % r.choice(["0", "0..1", "1..3", "3..6", "-1"]),
